@@ -236,28 +236,39 @@ class SecretsPart(Part):
 
     def run(self, case):
         from netconan.anonymize_files import FileAnonymizer
+        from mc import refs
 
         res = Res()
         f = [x for x in secdom.catalogue() if x["id"] == case["form"]][0]
-        for val, user in (("apply", None), ("ipaddress", None), (USER_RESERVED, USER_RESERVED),
-                          ('"apply"', None), ("apply;", None)):
-            res.evals += 1
-            line = secdom.fill(f["template"], [val])
-            try:
-                with seams.capture_logs():
-                    fa = FileAnonymizer(anon_pwd=True, anon_ip=False, salt="saltForTest",
-                                        sensitive_words=["xyx"], reserved_words=[user] if user else None)
-                    out = io.StringIO()
-                    fa.anonymize_io(io.StringIO(line + "\n"), out)
-            finally:
-                seams.restore_globals()
-            g = out.getvalue().rstrip("\n")
-            res.nt((f["id"], val))
-            res.out(g == line)
-            bare = val.strip('";')
-            if bare not in g.replace('"', " ").replace(";", " ").split():
-                res.violation("reserved-secret-value-changed|%s" % ("user-addition" if user else "built-in"),
-                              "form %s: %r -> %r" % (f["id"], line, g), case)
+        # histories: what the run saw BEFORE the line that carries a reserved word as its value
+        priors = [
+            [],
+            ['set system tacplus-server 9.9.9.9 secret "%s"' % refs.j9_encode("apply", "Q"),
+             'set system tacplus-server 9.9.9.9 secret "%s"' % refs.j9_encode(USER_RESERVED, "k"),
+             'set system tacplus-server 9.9.9.9 secret "%s"' % refs.j9_encode("ipaddress", "7")],
+            ["password someOtherSecret", "key 7 082959401D1C1745"],
+        ]
+        for pi, prior in enumerate(priors):
+            for val, user in (("apply", None), ("ipaddress", None), (USER_RESERVED, USER_RESERVED),
+                              ('"apply"', None), ("apply;", None)):
+                res.evals += 1
+                line = secdom.fill(f["template"], [val])
+                try:
+                    with seams.capture_logs():
+                        fa = FileAnonymizer(anon_pwd=True, anon_ip=False, salt="saltForTest",
+                                            sensitive_words=["xyx"], reserved_words=[user] if user else None)
+                        out = io.StringIO()
+                        fa.anonymize_io(io.StringIO("".join(p + "\n" for p in prior) + line + "\n"), out)
+                finally:
+                    seams.restore_globals()
+                g = out.getvalue().rstrip("\n").split("\n")[-1]
+                res.nt((f["id"], val, pi))
+                res.out(g == line)
+                bare = val.strip('";')
+                if bare not in g.replace('"', " ").replace(";", " ").split():
+                    res.violation("reserved-secret-value-changed|%s|%s" % (
+                        "user-addition" if user else "built-in", "after-history" if prior else "first-line"),
+                                  "form %s after %r: %r -> %r" % (f["id"], prior[:1], line, g), case)
         res.samples.append({"form": f["template"]})
         return res
 
